@@ -1,4 +1,4 @@
-#!/usr/bin/env python3
+#!/venv/bin/python
 """Regenerate MANIFEST.json from harness/registry.py (run from /verif)."""
 import json, os, sys
 sys.path.insert(0, os.path.dirname(os.path.dirname(os.path.abspath(__file__))))
